@@ -1,4 +1,5 @@
 import os
+import struct
 import collections
 import warnings
 import numpy as np
@@ -299,13 +300,14 @@ class SgzConverter(SgzReader):
 
         # seimcic-zfp stores the binary header from the source SEG-Y file.
         # In case someone forgot to do this, give them IBM float
-        data_sample_format_code = bytes_to_int(
-            self.headerbytes[DISK_BLOCK_BYTES+3225: DISK_BLOCK_BYTES+3227])
+        # Big-endian 16-bit field at bytes 3225-3226 (1-based) of the SEG-Y file header
+        data_sample_format_code = struct.unpack(
+            '>H', self.headerbytes[DISK_BLOCK_BYTES+3224: DISK_BLOCK_BYTES+3226])[0]
         if data_sample_format_code in [1, 5]:
             spec.format = data_sample_format_code
         else:
             new_headerbytes = bytearray(self.headerbytes)
-            new_headerbytes[DISK_BLOCK_BYTES + 3225: DISK_BLOCK_BYTES + 3227] = int_to_bytes(1)
+            new_headerbytes[DISK_BLOCK_BYTES + 3224: DISK_BLOCK_BYTES + 3226] = struct.pack('>H', 1)
             self.headerbytes = bytes(new_headerbytes)
             spec.format = 1
 
